@@ -307,6 +307,22 @@ def do(op: dict) -> str:
         return "ok"
     if o == "basedir":
         BASE["dir"] = op["path"]
+        if op.get("slow_commit") and not BASE.get("slowed"):
+            # slow storage: the commit (rename of the finished temporary directory) of every checkpoint takes a while, so that with asynchronous
+            # saving later save requests arrive while a write is still in flight
+            import os as _os
+            import time as _time
+            BASE["slowed"] = True
+            delay = float(op["slow_commit"])
+
+            def _slow(orig):
+                def w(*a, **kw):
+                    if ".orbax-checkpoint-tmp" in _os.path.basename(_os.fsdecode(a[0])):
+                        _time.sleep(delay)
+                    return orig(*a, **kw)
+                return w
+            _os.rename = _slow(_os.rename)
+            _os.replace = _slow(_os.replace)
         return "ok"
     if o == "ls":
         import orbax.checkpoint as ocp
